@@ -20,12 +20,12 @@ func Run(o *drv.Out) {
 	CorpusRootBump(o)
 	CorpusStaleLock(o)
 	CorpusUnlock(o)
-	nCases := 240
+	nCases := 200
 	if o.Tier == "thorough" {
-		nCases = 2400
+		nCases = 1500
 	}
 	if o.Search {
-		nCases = 3600
+		nCases = 2000
 	}
 	seeds := make([]int64, nCases)
 	for k := range seeds {
